@@ -10,6 +10,7 @@ import Driver.FlagCmd
 import Driver.CliCmd
 import Driver.SemCmd
 import Driver.ScopeCmd
+import Driver.BookCmd
 /-!
 # Line-protocol driver over the executable models
 
@@ -37,6 +38,7 @@ def step (s : DState) (line : String) : DState × String :=
   | ["cli", c, a, e] => (s, cliLine c a e)
   | ["sem", p, e, a] => (s, semLine p e a)
   | "scope" :: toks => (s, scopeLine toks)
+  | ["book", o] => (s, bookLine o)
   | _ => (s, "bad-op")
 
 partial def loop (h : IO.FS.Stream) (out : IO.FS.Stream) (s : DState) : IO Unit := do
